@@ -2,7 +2,7 @@ CONSTANTS
  TPs = {"t1p0","t1p1","t2p0"}
  Backends = {"b1","b2","b3"}
  Apis = {"produce","fetch"}
- IdModes = {"name","id"}
+ IdModes = {"name"}
  MaxAttempts = 3
  MaxFaults = 4
  CanonOrder = FALSE
